@@ -69,7 +69,7 @@ func mutateXML(r *rng.R, x string) (string, string) {
 		t := tags[r.Intn(len(tags))]
 		return t[0], t[1], true
 	}
-	switch r.Intn(26) {
+	switch r.Intn(29) {
 	case 0:
 		if len(x) == 0 {
 			return x, "noop"
@@ -169,12 +169,32 @@ func mutateXML(r *rng.R, x string) (string, string) {
 			return string(b), "bit-flips"
 		}
 	case 19:
-		return strings.ReplaceAll(x, "<w:tblGrid>", "<w:tblGridX>"), "hide-tblGrid"
+		return strings.ReplaceAll(strings.ReplaceAll(x, "<w:tblGrid>", "<w:tblGridX>"), "</w:tblGrid>", "</w:tblGridX>"), "hide-tblGrid"
 	case 20:
 		// rows with different numbers of cells
 		return strings.Replace(x, "</w:tc></w:tr>", "</w:tc><w:tc><w:p/></w:tc><w:tc><w:p/></w:tc></w:tr>", 1), "ragged-row"
 	case 21:
-		return strings.Replace(x, "<w:tc>", "<w:tc><w:tcPr><w:gridSpan w:val=\"3\"/><w:vMerge/></w:tcPr>", r.Range(1, 3)), "merge-markers"
+		span := []string{"3", "3", "0", "-2", "64", "50000000", "99999999999999999999", "x"}[r.Intn(8)]
+		if !strings.Contains(x, "<w:tc>") {
+			x = strings.Replace(x, "<w:body>", "<w:body><w:tbl><w:tr><w:tc><w:p/></w:tc><w:tc><w:p/></w:tc></w:tr><w:tr><w:tc><w:p/></w:tc><w:tc><w:p/></w:tc></w:tr></w:tbl>", 1)
+		}
+		if r.Bool() {
+			x = strings.ReplaceAll(strings.ReplaceAll(x, "<w:tblGrid>", "<w:tblGridX>"), "</w:tblGrid>", "</w:tblGridX>")
+		}
+		return strings.Replace(x, "<w:tc>", "<w:tc><w:tcPr><w:gridSpan w:val=\""+span+"\"/><w:vMerge/></w:tcPr>", r.Range(1, 3)), "merge-markers"
+	case 28:
+		// numbers far outside what a producer writes, wherever a number stands
+		re := regexp.MustCompile(`w:(val|w|ilvl|id|left|right|h)="-?[0-9]+"`)
+		big := []string{"50000000", "99999999999999999999", "-50000000", "2147483648", "0"}[r.Intn(5)]
+		n := 0
+		every := r.Range(1, 4)
+		return re.ReplaceAllStringFunc(x, func(m string) string {
+			n++
+			if n%every != 0 {
+				return m
+			}
+			return m[:strings.Index(m, "=")] + `="` + big + `"`
+		}), "huge-numbers"
 	case 22:
 		return strings.ReplaceAll(x, "<w:p>", "<w:p><w:pPr></w:pPr>"), "empty-pPr"
 	case 23:
@@ -185,6 +205,18 @@ func mutateXML(r *rng.R, x string) (string, string) {
 		return re.ReplaceAllString(x, "<w:tr></w:tr>"), "rows-without-cells"
 	case 25:
 		return strings.ReplaceAll(x, "<w:r>", "<w:r><w:rPr><w:b w:val=\"\"/><w:sz/><w:color/><w:rFonts/><w:u/></w:rPr>"), "valueless-run-props"
+	case 26:
+		// drawings the library's own writer never produces: no inline/anchor child, or only a compatibility wrapper
+		bare := []string{"<w:r><w:drawing/></w:r>", "<w:r><w:drawing></w:drawing></w:r>",
+			`<w:r><w:drawing><mc:AlternateContent xmlns:mc="http://schemas.openxmlformats.org/markup-compatibility/2006"><mc:Choice Requires="wps"/><mc:Fallback/></mc:AlternateContent></w:drawing></w:r>`,
+			`<w:r><w:drawing><wp:inline xmlns:wp="http://schemas.openxmlformats.org/drawingml/2006/wordprocessingDrawing"/></w:drawing></w:r>`,
+			`<w:r><w:drawing><wp:anchor xmlns:wp="http://schemas.openxmlformats.org/drawingml/2006/wordprocessingDrawing"/></w:drawing></w:r>`}[r.Intn(5)]
+		if strings.Contains(x, "</w:p>") {
+			return strings.Replace(x, "</w:p>", bare+"</w:p>", r.Range(1, 2)), "bare-drawing"
+		}
+		return strings.Replace(x, "<w:body>", "<w:body><w:p>"+bare+"</w:p>", 1), "bare-drawing"
+	case 27:
+		return strings.Replace(x, "<w:body>", "<w:body>"+[]string{"<w:tbl/>", "<w:tbl><w:tblPr/><w:tblGrid/></w:tbl>", "<w:sdt><w:sdtContent><w:tbl/></w:sdtContent></w:sdt>", "<w:sdt/>", "<w:p/><w:sectPr/><w:p/>"}[r.Intn(5)], 1), "empty-containers"
 	}
 	return x, "noop"
 }
@@ -361,10 +393,21 @@ func postOpen(res *core.Result, d *document.Document, r *rng.R, workDir string) 
 		d.SetPageSize(document.PageSizeA5)
 		d.SetDocGrid(document.DocGridLines, 312, 0)
 	})
+	var info *document.ImageInfo
 	step("AddImageFromData", func() {
 		im := gen.MakeImage("jpeg", 78, 4, 4)
-		d.AddImageFromData(im.Data, "p.jpg", document.ImageFormatJPEG, 4, 4, nil)
+		info, _ = d.AddImageFromData(im.Data, "p.jpg", document.ImageFormatJPEG, 4, 4, nil)
 	})
+	if info != nil {
+		// the picture setters look the picture up among all drawings of the opened body
+		step("SetImageAlignment", func() { d.SetImageAlignment(info, document.AlignCenter) })
+		step("ResizeImage", func() { d.ResizeImage(info, &document.ImageSize{Width: 20, KeepAspectRatio: true}) })
+		step("SetImagePosition", func() {
+			d.SetImagePosition(info, document.ImagePositionFloatLeft, 1, 1)
+			d.SetImageWrapText(info, document.ImageWrapSquare)
+		})
+		step("SetImageAltText", func() { d.SetImageAltText(info, "alt"); d.SetImageTitle(info, "title") })
+	}
 	step("AddListItem", func() { d.AddListItem("li", nil); d.AddFootnote("t", "n") })
 	step("GenerateTOC", func() { d.GenerateTOC(nil); d.UpdateTOC() })
 	step("AutoGenerateTOC", func() { d.AutoGenerateTOC(nil) })
